@@ -63,6 +63,7 @@ fn main() {
         Some("pp") if args.len() >= 3 => pp_probe(&args[2].replace("\\n", "\n"), args.len() > 3),
         Some("check") if args.len() >= 4 => std::process::exit(runner::cmd_check(&args[2], &args[3])),
         Some("worker") if args.len() >= 9 => std::process::exit(runner::cmd_worker(&args[2..])),
+        Some("exec1") => std::process::exit(exec::cmd_exec1()),
         Some("eval") if args.len() >= 3 => std::process::exit(runner::cmd_eval(&args[2])),
         Some("replay") if args.len() >= 3 => std::process::exit(runner::cmd_replay(&args[2])),
         _ => {
